@@ -120,9 +120,9 @@ func (c *Ctx) WatermarkGuards(prop string, s *Slashing, kind string) {
 			ins, path := an.Cut(an.CutQuery{
 				From:   an.Entry(F),
 				Target: func(i ssa.Instruction) bool { return i == site },
-				AcceptEdge: func(b *ssa.BasicBlock, i int, a *an.Atom) bool {
-					return s.watermarkAtom(a, d.Kind, d.StateFld, d.ReqField, d.Strict)
-				},
+				AcceptEdge: c.WithSummaries(func(a *an.Atom, sub Subst) bool {
+					return s.watermarkAtomS(a, sub, d.Kind, d.StateFld, d.ReqField, d.Strict)
+				}),
 			})
 			want := fmt.Sprintf("every path to APPROVED passes [state.%s < 0] or [request %s %s uint64(state.%s)]", d.StateFld, d.ReqField, map[bool]string{true: ">", false: ">="}[d.Strict], d.StateFld)
 			if ins != nil {
@@ -135,9 +135,9 @@ func (c *Ctx) WatermarkGuards(prop string, s *Slashing, kind string) {
 			ins, path = an.Cut(an.CutQuery{
 				From:   an.Entry(F),
 				Target: func(i ssa.Instruction) bool { return i == site },
-				AcceptEdge: func(b *ssa.BasicBlock, i int, a *an.Atom) bool {
-					return s.boundAtom(a, d.Kind, d.ReqField)
-				},
+				AcceptEdge: c.WithSummaries(func(a *an.Atom, sub Subst) bool {
+					return s.boundAtomS(a, sub, d.Kind, d.ReqField)
+				}),
 			})
 			wantB := fmt.Sprintf("every path to APPROVED passes [request %s <= MaxInt64] (the watermark is an int64)", d.ReqField)
 			if ins != nil {
@@ -175,7 +175,7 @@ func (c *Ctx) WatermarkConversions(prop string, s *Slashing, kind string) {
 					any = true
 					site := o.Site
 					if x, _ := an.Cut(an.CutQuery{From: an.Entry(fn), Target: func(i ssa.Instruction) bool { return i == site },
-						AcceptEdge: func(b *ssa.BasicBlock, i int, a *an.Atom) bool { return s.boundAtom(a, kind, reqFld) }}); x != nil {
+						AcceptEdge: c.WithSummaries(func(a *an.Atom, sub Subst) bool { return s.boundAtomS(a, sub, kind, reqFld) })}); x != nil {
 						return false
 					}
 				}
@@ -198,6 +198,45 @@ func (c *Ctx) WatermarkConversions(prop string, s *Slashing, kind string) {
 				from, ok2 := cv.X.Type().Underlying().(*types.Basic)
 				if !ok1 || !ok2 {
 					continue
+				}
+				// widen through a helper parameter: the operand is a parameter that receives a state field at a call site
+				if p, isParam := cv.X.(*ssa.Parameter); isParam && to.Info()&types.IsUnsigned != 0 && from.Info()&types.IsUnsigned == 0 && from.Info()&types.IsInteger != 0 {
+					fld := ""
+					for _, caller := range c.P.ModuleFuncs() {
+						if prog.PkgPathOf(caller) != s.Pkg.Pkg.Path() {
+							continue
+						}
+						for _, ci := range Calls(caller, func(ci ssa.CallInstruction) bool { return ci.Common().StaticCallee() == fn }) {
+							for ai, a := range ci.Common().Args {
+								if ai < len(fn.Params) && fn.Params[ai] == p {
+									if k, f := s.stateField(a); k == kind {
+										fld = f
+									}
+								}
+							}
+						}
+					}
+					if fld != "" {
+						nW++
+						x, path := an.Cut(an.CutQuery{From: an.Entry(fn), Target: func(i ssa.Instruction) bool { return i == ins },
+							AcceptEdge: func(b *ssa.BasicBlock, i int, a *an.Atom) bool {
+								if a == nil {
+									return false
+								}
+								if k, ok := a.LV.(*ssa.Const); ok && a.RV == ssa.Value(p) {
+									if v, exact := constInt64(k); exact && ((a.Op == "<=" && v >= 0) || (a.Op == "<" && v >= -1)) {
+										return true
+									}
+								}
+								return false
+							}})
+						want := "conversion of the watermark (state." + fld + ", passed as a parameter) to unsigned is dominated by [value >= 0]"
+						if x != nil {
+							c.R.Fail(ruleW, Fn(fn)+":"+fld, c.Pos(ins), "a negative watermark (-1 = none) is converted to unsigned without a sign test", want, an.PathString(c.Pos, path))
+						} else {
+							c.R.OK(ruleW, Fn(fn)+":"+fld, c.Pos(ins), want)
+						}
+					}
 				}
 				// widen: unsigned <- signed state field
 				if k, f := s.stateField(cv.X); k == kind && to.Info()&types.IsUnsigned != 0 && from.Info()&types.IsUnsigned == 0 {
@@ -222,7 +261,7 @@ func (c *Ctx) WatermarkConversions(prop string, s *Slashing, kind string) {
 					// accepted: local bound guard, or the true edge of `call == APPROVED` where the callee bounds the field
 					x, path := an.Cut(an.CutQuery{From: an.Entry(fn), Target: func(i ssa.Instruction) bool { return i == ins },
 						AcceptEdge: func(b *ssa.BasicBlock, i int, a *an.Atom) bool {
-							if s.boundAtom(a, kind, f) {
+							if c.WithSummaries(func(a *an.Atom, sub Subst) bool { return s.boundAtomS(a, sub, kind, f) })(b, i, a) {
 								return true
 							}
 							if a != nil && a.Op == "==" {
@@ -401,7 +440,7 @@ func (c *Ctx) StateStoreDiscipline(prop string, s *Slashing, kind string) {
 		}
 		x, path := an.Cut(an.CutQuery{From: an.Entry(fn), Target: func(i ssa.Instruction) bool { return i == target },
 			AcceptEdge: func(b *ssa.BasicBlock, i int, a *an.Atom) bool {
-				return s.watermarkAtom(a, d.Kind, d.StateFld, d.ReqField, d.Strict) || approvedEdge(a)
+				return approvedEdge(a) || c.WithSummaries(func(a *an.Atom, sub Subst) bool { return s.watermarkAtomS(a, sub, d.Kind, d.StateFld, d.ReqField, d.Strict) })(b, i, a)
 			}})
 		if x != nil {
 			bad++
